@@ -115,10 +115,10 @@ func run(c Case) (res evid.Result) {
 func sameLabelNested(w *pgen.W, outer map[string]bool) bool { return pgen.SameLabelNested(w, outer) }
 
 func gen(t *rapid.T) Case {
-	g := &pgen.G{T: t, Tier: tier()}
+	g := &pgen.G{T: t, Tier: tier(), F: pgen.FRefTypes | pgen.FListComp | pgen.FStructDisj | pgen.FSelectors}
 	w := pgen.GenStructW(t, 2)
 	concrete := rapid.IntRange(0, 3).Draw(t, "concrete") > 0
-	st := g.StructLit(w, nil, concrete, true)
+	st := g.Program(w, concrete)
 	c := Case{Src: st.Body(), Profile: rapid.SampledFrom([]string{"def", "all", "final", "concrete", "docs", "hidden"}).Draw(t, "profile")}
 	if rapid.IntRange(0, 3).Draw(t, "sub") == 0 {
 		if ps := pgen.StructPaths(w); len(ps) > 0 {
